@@ -103,7 +103,7 @@ CLAIMED = {
         "DESIGN.md §4 C16",
     ),
     "C17": (
-        "Exhaustive configuration enumeration with a differential twin: for the constant-product pair, the stableswap pair, the trio and the vault, all 2^3 switch combinations (set through the factories) x every entry path (ProvideLiquidity, native Swap, cw20 Send{Swap}, cw20 Send{WithdrawLiquidity}, pool-router hop; vault Deposit, cw20 Send{Withdraw}, FlashLoan direct and through the vault router; frontend-helper deposit) x {empty, funded} are executed as the regression corpus (240 + 128 + 8 cases) and random amounts / asset kinds are drawn on top. Each case builds the world twice (identical builder, twin has every switch on): a switched-off operation must be rejected with the snapshot unchanged, every other operation must have the same outcome and the same balance / LP-supply deltas as the twin, re-enabling restores twin equality, fresh pools and vaults report all switches on.",
+        "Exhaustive configuration enumeration with a differential twin: for the constant-product pair, the stableswap pair, the trio and the vault, all 2^3 switch combinations (set through the factories) x every entry path (ProvideLiquidity, native Swap, cw20 Send{Swap}, cw20 Send{WithdrawLiquidity}, pool-router hop; vault Deposit, cw20 Send{Withdraw}, FlashLoan direct and through the vault router; frontend-helper deposit) x {empty, funded} are executed as the regression corpus (240 + 128 + 8 cases) and random amounts / asset kinds are drawn on top. Each case builds the world twice (identical builder, twin has every switch on): a switched-off operation must be rejected with the snapshot unchanged, every other operation must have the same outcome and the same balance / LP-supply deltas as the twin, re-enabling restores twin equality, fresh pools and vaults report all switches on. Vault switch states are reached through sequences of partial UpdateConfig messages. A second binary (harness_tf) compiles pair and 3-pool with the cargo feature osmosis_token_factory and checks the entry path that only exists there — the direct WithdrawLiquidity message with the LP denom as funds — plus deposit and swap, over cosmwasm_std mocks, for all 8 switch combinations with the same differential rule.",
         "Twin worlds are deterministic copies; token-factory LP paths not exercised.",
         "exhaustive configuration x path enumeration with a differential (twin-world) oracle",
         "DESIGN.md §4 C17",
@@ -164,6 +164,11 @@ def main():
             "path": "/verif/harness",
             "serves_properties": [c["property_id"] for c in checks],
             "kind_free_text": "Rust binary: proptest strategies + model-based interpreters over the real contracts under cw-multi-test, exact big-integer reference maths, sharded deterministic runners, shrinking, JSON replay files, evidence writer",
+        }, {
+            "name": "wwcheck_tf",
+            "path": "/verif/harness_tf",
+            "serves_properties": ["C17"],
+            "kind_free_text": "Rust binary sharing engine.rs with wwcheck; links pair and 3-pool with the cargo feature osmosis_token_factory and drives their entry points over cosmwasm_std::testing mocks; run by ./check after wwcheck for the properties it serves, merging its coverage into the same evidence file",
         }],
         "checks": checks,
         "not_applicable": na,
